@@ -298,3 +298,11 @@ Definition go_readstring (s : go_stream) (d : N) : list N * Z * go_stream :=
 (* strings.TrimSuffix *)
 Definition go_trim_suffix (s suf : list N) : list N :=
   if is_prefix (rev suf) (rev s) then rev (skipn (length suf) (rev s)) else s.
+
+(* ---- interface{} holding one of the types the library stores in it -------------------------- *)
+Inductive go_any : Type :=
+| AnyByte (b : N) | AnyInt (z : Z) | AnyFloat (x : F) | AnyString (s : list N) | AnyBytes (s : list N).
+
+(* sort.Strings: bytewise order *)
+Definition go_string_lt (a b : list N) : bool :=
+  match bcompare a b with Lt => true | _ => false end.
